@@ -11,6 +11,7 @@ import subprocess
 import sys
 import tempfile
 import threading
+import time
 from collections import Counter
 
 import labtech
@@ -118,6 +119,7 @@ class LineInjector:
                 self.funcs.append(frame.f_code.co_name)
             if self.target is not None and n == self.target:
                 self.fired += 1
+                self.fired_at = time.monotonic()
                 self.where = f'{os.path.relpath(frame.f_code.co_filename, self.prefix)}:{frame.f_lineno} ({frame.f_code.co_name})'
                 raise KeyboardInterrupt(f'injected at line event {n}')
             if self.target is not None and self.second is not None and n == self.target + 1 + self.second:
@@ -191,8 +193,9 @@ def stage_lines(report, tier, rng, dist, runner):
         case['pre'] = []
         case['max_workers'] = 2
         case['watchdog_s'] = 15
-        if runner == 'l2' and ci == 0:
-            # independent tasks queueing behind two workers: queued tasks are launched from inside wait()
+        if ci == 0:
+            # independent tasks queueing behind two workers (queued tasks are launched from inside wait()) / behind the one
+            # task the serial backend runs at a time
             nn = 4
             case.update(n=nn, types=[0] * nn, specs=[['tuple', []] for _ in range(nn)], reads=[[] for _ in range(nn)], behs=['ok'] * nn,
                         req=[[t, 0] for t in range(nn)], storage='local', bust=False, cont=True)
@@ -228,17 +231,23 @@ def stage_lines(report, tier, rng, dist, runner):
             obs, inj = run_lines(case, tgt, runner)
             runs += 1
             dist[f"{runner}_line_outcome={obs['outcome']}"] += 1
-            v = monitor_interrupted(obs, inj.fired, f'interrupt at {inj.where} under the {runner} runner')
-            if v is None and inj.fired == 1 and obs.get('unloadable'):
-                v = ('cache-inconsistent', f"after an interrupt at {inj.where} tasks {obs['unloadable']} are reported cached but cannot be loaded")
+            def judge(obs, inj):
+                v = monitor_interrupted(obs, inj.fired, f'interrupt at {inj.where} under the {runner} runner')
+                if v is None and inj.fired == 1 and obs.get('unloadable'):
+                    v = ('cache-inconsistent', f"after an interrupt at {inj.where} tasks {obs['unloadable']} are reported cached but cannot be loaded")
+                if v is None and inj.fired == 1 and runner == 'serial' and obs.get('start_times'):
+                    # under the serial backend tasks run one after the other in the caller: whatever starts executing after
+                    # the interrupt was started after it
+                    late = sorted(t for t, ts in obs['start_times'].items() if ts > inj.fired_at)
+                    if late:
+                        v = ('started-after-interrupt', f'tasks {late} began to execute after the interrupt at {inj.where} (serial backend)')
+                return v
+            v = judge(obs, inj)
             if v is not None:
                 # a violation must replay: the same interrupt once more (an outcome that depends on how the runtime's own
                 # threads and finalisers interleave, e.g. a sporadic OSError(EBADF) out of a Manager proxy, is not a replay)
                 obs2, inj2 = run_lines(case, tgt, runner)
-                v2 = monitor_interrupted(obs2, inj2.fired, f'interrupt at {inj2.where} under the {runner} runner')
-                if v2 is None and inj2.fired == 1 and obs2.get('unloadable'):
-                    v2 = ('cache-inconsistent', '')
-                if v2 is None:
+                if judge(obs2, inj2) is None:
                     dist['line_violation_not_reproduced'] += 1
                     report.notes.append(f'line-level run not reproduced on a second attempt: {v[1][:200]}')
                     continue
@@ -369,6 +378,12 @@ def run(prop, report, tier, seed, replay=None):
         elif inp.get('level') == 'line':
             obs, inj = run_lines(inp['case'], inp['line_event'], inp['runner'], second=inp.get('second'))
             v = monitor_interrupted(obs, inj.fired, f'replay at {inj.where}')
+            if v is None and inj.fired == 1 and obs.get('unloadable'):
+                v = ('cache-inconsistent', f"tasks {obs['unloadable']} are reported cached but cannot be loaded")
+            if v is None and inj.fired == 1 and inp['runner'] == 'serial' and obs.get('start_times'):
+                late = sorted(t for t, ts in obs['start_times'].items() if ts > inj.fired_at)
+                if late:
+                    v = ('started-after-interrupt', f'tasks {late} began to execute after the interrupt at {inj.where} (serial backend)')
             if v:
                 report.violation(f'C14:{v[0]}', v[1], inp)
         elif inp.get('level') == 'signal':
